@@ -216,7 +216,8 @@ def _find_apps(t, name, out=None):
 
 
 def _mentions_sym(t, name):
-    return f"'{name}'" in repr(_key(t)) or f'{name}' in show(t, 10000)
+    from ..vg import mentions_name
+    return mentions_name(t, name)
 
 
 def _const_false_of_shape(v):
